@@ -5,15 +5,15 @@ CONSTANTS
   GPUs = {1, 2}
   PageDev <- MCPageDev2
   PhysPage <- MCPhys
-  SpareDev = <<>>
-  MaxRemap = 0
-  Bufs <- MCBufs2
-  Ctxs = {1, 2}
+  SpareDev = <<2, 1>>
+  MaxRemap = 2
+  Bufs <- MCBufs1
+  Ctxs = {1}
   Queues = {1}
-  Ranges <- MCRangesQ
-  KWrites <- MCKWritesQ
+  Ranges <- MCRangesR
+  KWrites <- MCKWritesR
   MaxCmds = 3
   Contract = TRUE
-  Deviations = {}
+  Deviations = {"stale_page_cache"}
 INVARIANTS TypeOK CompleteOnceAfterAll RoundTrip OutsideUntouched NoHang
 CHECK_DEADLOCK FALSE
